@@ -67,4 +67,9 @@ theorem other_reactor_anchors :
     Facts.bc_status_base_guard = "msg.Base > msg.Height" ∧
     ReactorMsgs.maxTotalRequesters = 600 ∧ ReactorMsgs.pexMaxMsgSize = 64000 := by decide
 
+/-- `createMConnection.onReceive` decodes every message into a FRESH clone of the channel's message
+type (the `MessageType` object of a `ChannelDescriptor` is shared by all peers of the switch):
+this is what makes decoding a function of the message's own bytes (`Props.C17.peers_do_not_mix`) -/
+theorem peer_onReceive_clones : Facts.peer_onReceive_clones_message_type = true := by decide
+
 end Tmv.Expect.C17
